@@ -202,6 +202,30 @@ def s1_skip():
     # attributes split over several field attributes / combined in one
     yield 'skip/multi_attr', st('S', [field('a', ['T'], [sub(skip_meta('skip', ['Debug'])), sub(skip_meta('skip', ['Hash']))]), field('b', ['u8'])], [dw(all9)])
     yield 'skip/one_attr_two', st('S', [field('a', ['T'], [sub(skip_meta('skip', ['Debug']), skip_meta('skip', ['EqHashOrd']))]), field('b', ['u8'])], [dw(all9)])
+    # the skip table: every non-empty list of distinct groups in every ORDER, written as one list, as one attribute per group,
+    # and as several lists in one attribute - as skip_inner on a variant / on the struct and as skip on a field (every group of
+    # an earlier list must survive a later one, whichever comes first)
+    G3 = ['Debug', 'EqHashOrd', 'Hash']
+    for r in range(1, 4):
+        for gs in itertools.permutations(G3, r):
+            gt = '_'.join(gs)
+            for lay in (('one', 'split', 'lists') if r > 1 else ('one',)):
+                if lay == 'one':
+                    inner_v = [sub(skip_meta('skip_inner', list(gs)))]
+                    inner_s = [dw([skip_meta('skip_inner', list(gs))])]
+                    fsk = [sub(skip_meta('skip', list(gs)))]
+                elif lay == 'split':
+                    inner_v = [sub(skip_meta('skip_inner', [g])) for g in gs]
+                    inner_s = [dw([skip_meta('skip_inner', [g])]) for g in gs]
+                    fsk = [sub(skip_meta('skip', [g])) for g in gs]
+                else:
+                    inner_v = [sub(*[skip_meta('skip_inner', [g]) for g in gs])]
+                    inner_s = [dw([skip_meta('skip_inner', [g]) for g in gs])]
+                    fsk = [sub(*[skip_meta('skip', [g]) for g in gs])]
+                yield 'skip/groups/variant/%s/%s' % (gt, lay), en('E', [variant('A', 'Unnamed', unnamed(2, [['T'], ['u8']]), inner_v), variant('B', 'Named', named(1, [['T']])), variant('C')], [dw(all9)])
+                yield 'skip/groups/struct/%s/%s' % (gt, lay), st('S', named(2, [['T'], ['u8']]), [dw(all9)] + inner_s)
+                yield 'skip/groups/field/%s/%s' % (gt, lay), st('S', named(2, [['T'], ['u8']], [fsk, []]), [dw(all9)])
+                yield 'skip/groups/enum_field/%s/%s' % (gt, lay), en('E', [variant('A', 'Unnamed', unnamed(2, [['T'], ['u8']], [[], fsk])), variant('B')], [dw(all9)])
     yield 'skip/foreign_attr', st('S', [field('a', ['T'], [('Other', P('doc'), ['=', '"x"']), sub('skip')]), field('b', ['u8'], [('Other', P('allow'), ['(', 'unused', ')'])])], [dw(all9)])
 
 
@@ -418,6 +442,9 @@ def s1_zeroize():
         if 'Zeroize' in ts:
             yield 'zeroize/fqs/' + tag, st('S', named(2, [['T'], ['u8']], [fq, []]), [dw(ts)])
             yield 'zeroize/fqs_enum/' + tag, en('E', [variant('A', 'Unnamed', unnamed(2, [['T'], ['u8']], [[], fq])), variant('B', 'Named', named(1, [['T']], [fq]))], [dw(ts)])
+            if 'Debug' in ts:   # the same two options of ONE attribute in the other order, on a named and on a tuple field
+                yield 'zeroize/skip_fqs/' + tag, st('S', named(2, [['T'], ['u8']], [[sub(skip_meta('skip', ['Debug']), ('L', P('Zeroize'), [mpath('fqs')], None))], sk]), [dw(ts)])
+                yield 'zeroize/skip_fqs_enum/' + tag, en('E', [variant('A', 'Unnamed', unnamed(2, [['T'], ['u8']], [[sub(skip_meta('skip', ['Debug']), ('L', P('Zeroize'), [mpath('fqs')], None))], []])), variant('B')], [dw(ts)])
             yield 'zeroize/fqs_skip/' + tag, st('S', named(2, [['T'], ['u8']], [[sub(('L', P('Zeroize'), [mpath('fqs')], None), skip_meta('skip', ['Debug']))] if 'Debug' in ts else fq, sk]), [dw(ts)])
     # every order of a skipped, an fqs and a plain field
     for oi, perm in enumerate(itertools.permutations([sk, fq, [], [sub('skip')]], 3)):
@@ -431,11 +458,16 @@ def s1_zeroize():
     for r in range(1, 5):
         for gs in itertools.combinations(G4, r):
             gt = '_'.join(gs)
-            for split in ((False, True) if r > 1 else (False,)):
-                st_ = 'split' if split else 'one'
-                inner_v = [sub(skip_meta('skip_inner', [g])) for g in gs] if split else [sub(skip_meta('skip_inner', list(gs)))]
-                inner_s = [dw([skip_meta('skip_inner', [g])]) for g in gs] if split else [dw([skip_meta('skip_inner', list(gs))])]
-                fsk = [sub(skip_meta('skip', [g])) for g in gs] if split else [sub(skip_meta('skip', list(gs)))]
+            for st_ in (('one', 'split', 'split_rev', 'lists', 'lists_rev') if r > 1 else ('one',)):
+                split = st_ != 'one'
+                g2 = gs[::-1] if st_.endswith('_rev') else gs
+                inner_v = [sub(skip_meta('skip_inner', [g])) for g in g2] if split else [sub(skip_meta('skip_inner', list(g2)))]
+                inner_s = [dw([skip_meta('skip_inner', [g])]) for g in g2] if split else [dw([skip_meta('skip_inner', list(g2))])]
+                fsk = [sub(skip_meta('skip', [g])) for g in g2] if split else [sub(skip_meta('skip', list(g2)))]
+                if st_.startswith('lists'):
+                    inner_v = [sub(*[skip_meta('skip_inner', [g]) for g in g2])]
+                    inner_s = [dw([skip_meta('skip_inner', [g]) for g in g2])]
+                    fsk = [sub(*[skip_meta('skip', [g]) for g in g2])]
                 yield 'zeroize/skip_groups/variant/%s/%s' % (gt, st_), en('E', [variant('A', 'Unnamed', unnamed(2, [['T'], ['u8']]), inner_v), variant('B', 'Named', named(1, [['T']])), variant('C')], [dw(all_z)])
                 yield 'zeroize/skip_groups/struct/%s/%s' % (gt, st_), st('S', named(2, [['T'], ['u8']]), [dw(all_z)] + inner_s)
                 yield 'zeroize/skip_groups/field/%s/%s' % (gt, st_), st('S', named(2, [['T'], ['u8']], [fsk, []]), [dw(all_z)])
@@ -1065,14 +1097,60 @@ def duplicate_discriminant(it):
     return len(set(vals)) != len(vals)
 
 
+def _reorder(it, how):
+    """the same item with the helper attributes of every variant and field written in another order:
+    'metas' reverses the options inside each `#[derive_where(..)]` helper attribute, 'attrs' reverses the order of
+    the helper attributes of one variant / field (other attributes stay where they are)"""
+    import copy
+    it = copy.deepcopy(it)
+    changed = [False]
+
+    def fix(attrs):
+        if how == 'metas':
+            for i, a in enumerate(attrs):
+                if a[0] == 'Dw' and a[1][0] == 'List' and a[1][1] is not None and len(a[1][1]) > 1 and a[1][1] != a[1][1][::-1]:
+                    attrs[i] = ('Dw', ('List', a[1][1][::-1], a[1][2]))
+                    changed[0] = True
+        else:
+            idx = [i for i, a in enumerate(attrs) if a[0] == 'Dw']
+            vals = [attrs[i] for i in idx]
+            if len(vals) > 1 and vals != vals[::-1]:
+                for i, v in zip(idx, vals[::-1]):
+                    attrs[i] = v
+                changed[0] = True
+
+    k = it['kind']
+    fls = []
+    if k[0] == 'Enum':
+        for v in k[1]:
+            fix(v['attrs'])
+            fls.append(v['fields'])
+    else:
+        fls.append(k[2] if k[0] == 'Struct' else k[1])
+    for fl in fls:
+        for f in fl:
+            fix(f['attrs'])
+    return it if changed[0] else None
+
+
+def s1_order():
+    """order metamorphs of the systematic and the invalid families (the order in which options and helper attributes are
+    written never matters for what is skipped / marked, only for which error is reported first)"""
+    for cid, it in itertools.chain(s1_all(), s3_invalid()):
+        for how in ('metas', 'attrs'):
+            r = _reorder(it, how)
+            if r is not None:
+                yield 'order/%s/%s' % (how, cid), r
+
+
 def quick_corpus(seed):
     out = []
     seen = set()
-    for cid, it in itertools.chain(s1_all(), s3_invalid(), s2_random(seed, 300), s2_random2(seed, 900)):
+    for cid, it in itertools.chain(s1_all(), s3_invalid(), s1_order(), s2_random(seed, 300), s2_random2(seed, 900)):
         if cid in seen:
             raise RuntimeError('duplicate case id ' + cid)
         seen.add(cid)
-        if duplicate_discriminant(it) and not cid.startswith(('rand', 'inv/')):
+        if duplicate_discriminant(it) and not cid.startswith(('rand', 'inv/', 'order/metas/inv/', 'order/attrs/inv/')):
             raise RuntimeError('corpus item %s has a duplicate discriminant value' % cid)
         out.append((cid, it))
     return out
